@@ -95,6 +95,11 @@ func TestVerifC29Morpheus(t *testing.T) {
 			}
 		}
 	}
+	type kept struct {
+		got, want []byte
+		line      int
+	}
+	var keep []kept
 	for _, l := range lines {
 		f := verifh.Fields(l)
 		if len(f) != 4 || f[0] != "val" || reg[f[1]+" "+f[2]] == nil {
@@ -142,6 +147,12 @@ func TestVerifC29Morpheus(t *testing.T) {
 		var vs []viol
 		if f[1] == "action" {
 			db, derr := dynamic.Marshal(a, name, string(vjs))
+			if derr == nil {
+				keep = append(keep, kept{db, append([]byte{}, db...), r.Line() + 1})
+				if len(keep) > 24 {
+					keep = keep[1:]
+				}
+			}
 			dj, uerr := dynamic.UnmarshalAction(a, native)
 			switch {
 			case derr != nil || uerr != nil:
@@ -182,6 +193,12 @@ func TestVerifC29Morpheus(t *testing.T) {
 		r.Emit(l, out)
 		for _, x := range vs {
 			r.Violation(x.k, "%s", x.m)
+		}
+		for i := range keep {
+			if k := &keep[i]; k.line < r.Line() && !bytes.Equal(k.got, k.want) {
+				r.ViolationAt("marshal-result-aliased", k.line, r.Line(), "bytes returned by dynamic.Marshal at line %d were overwritten by a later call: was %x now %x", k.line, k.want, k.got)
+				k.want = append([]byte{}, k.got...)
+			}
 		}
 		r.Count("val:" + f[2] + ":" + out)
 		if out == "eq" {
